@@ -249,7 +249,7 @@ func c07Cases(ctx *lib.Ctx) []c07Case {
 			addArg(fmt.Sprintf("%s-values-%d", key, i), lib.Constraint{Key: key, Value: lib.YSeqOf(vals...)})
 		}
 	}
-	for i, num := range []string{"0", "-5", "2.5", "-0.5", "1e3", "1.0e-3", "123456789012", "-0", "007"} {
+	for i, num := range []string{"0", "-5", "2.5", "-0.5", "1e3", "1.0e-3", "123456789012", "-0", "007", ".5", ".0000005", "5e-7", "-.25", "+3", "0.30000000000000004"} {
 		for _, key := range []string{"minInclusive", "maxInclusive", "minExclusive", "maxExclusive"} {
 			addArg(fmt.Sprintf("%s-%d", key, i), sc(key, lib.RawScalar(num)))
 		}
@@ -289,7 +289,13 @@ func c07(tier string) {
 		ctx.Finish()
 	}
 	cases := c07Cases(ctx)
-	data := c02Graph(lib.CaseRand(ctx.Seed, 7, 0)).CanonicalJSONLD()
+	dg := c02Graph(lib.CaseRand(ctx.Seed, 7, 0))
+	for k, n := range dg.OfType(lib.EX + "T") {
+		// values that violate whatever the argument-value cases ask for, so that their traces are built as well
+		n.Add(lib.EX+"arg", []lib.Value{lib.IntV(-1000000), lib.StrV("zz"), lib.IntV(2000000000), lib.FloatV(0.5)}[k%4])
+		n.Add(lib.EX+"leaf", lib.StrV("v"))
+	}
+	data := dg.CanonicalJSONLD()
 	// profiles the translator must REJECT (not well formed): compiled right before some well-formed ones, because
 	// accepting a well-formed profile must not depend on what the process was asked to compile before
 	rejected := []string{
